@@ -126,6 +126,7 @@ pub struct Sim<P: Protocol> {
     pub hairpin: HashMap<(u16, SocketAddr), SocketAddr>,
     /// event-by-event trace for Cloud.tla (None = off)
     pub trace: Option<Vec<String>>,
+    pub flush_on_drop: bool,
     /// public key text -> label of a key (filled by the drivers that generate keys)
     pub max_trace: usize,
 }
@@ -160,6 +161,7 @@ impl<P: Protocol> Sim<P> {
             seen_as: HashMap::new(),
             hairpin: HashMap::new(),
             trace: None,
+            flush_on_drop: false,
             max_trace: 400_000,
         }
     }
@@ -174,6 +176,23 @@ impl<P: Protocol> Sim<P> {
         self.tev(json!({"op": "reset", "now": self.now}));
         for i in 0..self.nodes.len() {
             self.trace_boot(i);
+        }
+    }
+
+    /// event tracing for a sample of the runs of a driver: run numbers divisible by `stride`; the block is handed to
+    /// the process-wide collection when the simulation is dropped (see `write_cloud_blocks`)
+    pub fn trace_sample(&mut self, run: u64, stride: u64, max_events: usize) {
+        if stride > 0 && run % stride == 0 {
+            self.max_trace = max_events;
+            self.trace_on();
+            self.flush_on_drop = true;
+        }
+    }
+
+    /// the clock was set by the driver itself
+    pub fn note_time(&mut self) {
+        if self.trace.is_some() {
+            self.tev(json!({"op": "time", "now": self.now}));
         }
     }
 
@@ -732,4 +751,38 @@ pub fn ipv4_packet(src: [u8; 4], dst: [u8; 4], payload: &[u8]) -> Vec<u8> {
     p.extend_from_slice(&dst);
     p.extend_from_slice(payload);
     p
+}
+
+// ---------------------------------------------------------------------------------------------- sampled event traces
+
+static CLOUD_BLOCKS: std::sync::Mutex<Vec<Vec<String>>> = std::sync::Mutex::new(Vec::new());
+
+impl<P: Protocol> Drop for Sim<P> {
+    fn drop(&mut self) {
+        if self.flush_on_drop && self.trace.is_some() {
+            let panics = self.total_panics();
+            let mut t = self.trace_take();
+            t.push(json!({"op": "end", "run": 0, "panics": panics}).to_string());
+            if let Ok(mut b) = CLOUD_BLOCKS.lock() {
+                b.push(t);
+            }
+        }
+    }
+}
+
+/// writes the event traces collected from sampled runs (one block per run, each starting with a reset event)
+pub fn write_cloud_blocks(path: &str) -> usize {
+    use std::io::Write;
+    let blocks: Vec<Vec<String>> = std::mem::take(&mut *CLOUD_BLOCKS.lock().unwrap());
+    let mut f = std::io::BufWriter::new(std::fs::File::create(path).expect("create cloud trace"));
+    let mut n = 0;
+    for b in &blocks {
+        for l in b {
+            f.write_all(l.as_bytes()).unwrap();
+            f.write_all(b"\n").unwrap();
+            n += 1;
+        }
+    }
+    f.flush().unwrap();
+    n
 }
